@@ -115,6 +115,17 @@ TABLE: list[ClassDef] = [
         ],
     ),
     ClassDef("InhMixed", "Mixed", [FieldDef("more", "tuple[Base, ...]", "tuple", "()", classes=ANY)]),
+    # C16: a property whose (de)serialization can be made to raise, and a field name that sorts
+    # before the type tag
+    ClassDef(
+        "BombNode", "Base",
+        [
+            FieldDef("bomb", "Bomb", "bomb", "Bomb(0)"),
+            FieldDef("Kind", "str", "str", '"k"'),
+            FieldDef("child", "Base | None", "opt", "None", classes=ANY),
+            FieldDef("items", "tuple[Base, ...]", "tuple", "()", classes=ANY),
+        ],
+    ),
 ]
 
 BY_NAME: dict[str, ClassDef] = {c.name: c for c in TABLE}
@@ -168,7 +179,44 @@ from dataclasses import dataclass, field
 from pathlib import Path
 from typing import Literal
 
+from mashumaro.types import SerializableType
 from pyoak.node import ASTNode
+
+
+class BombError(Exception):
+    pass
+
+
+class Bomb(SerializableType):
+    """a property value whose serialization / deserialization raises while its tag is armed"""
+
+    armed: set = set()
+    armed_de: set = set()
+
+    def __init__(self, tag: int) -> None:
+        self.tag = tag
+
+    def _serialize(self):
+        if self.tag in Bomb.armed:
+            raise BombError(f"serialize {self.tag}")
+        return {"tag": self.tag}
+
+    @classmethod
+    def _deserialize(cls, value):
+        if value["tag"] in Bomb.armed_de:
+            raise BombError(f"deserialize {value['tag']}")
+        return Bomb(value["tag"])
+
+    def __eq__(self, other):
+        return isinstance(other, Bomb) and other.tag == self.tag
+
+    def __hash__(self):
+        return hash(("Bomb", self.tag))
+
+    def __str__(self):
+        return f"Bomb({self.tag})"
+
+    __repr__ = __str__
 
 
 class Color(enum.Enum):
